@@ -143,6 +143,14 @@ func (b *Buffer) Write(packet []byte) (int, error) { //nolint:cyclop
 		return 0, ErrFull
 	}
 
+	// Without a size limit the default cap applies, also when the buffer
+	// grew beyond it while a larger limit was in force.
+	if (b.limitSize <= 0 || sizeHardLimit) && b.size()+2+len(packet) > maxSize-1 {
+		b.mutex.Unlock()
+
+		return 0, ErrFull
+	}
+
 	// grow the buffer until the packet fits
 	for !b.available(len(packet)) {
 		err := b.grow()
